@@ -179,3 +179,78 @@ _mk(1, [1], "quick")
 _mk(2, [1], "quick")
 _mk(2, [2], "thorough")
 _mk(2, [1, 1], "thorough")
+
+
+@obligation("C06", "kalman_bounded", ensures=["B-C06-seq.predict", "B-C06-seq.update", "B-C06-seq.psd", "B-C06-seq.noobs", "B-C06-seq.weights"],
+            fns=[UK + "UnscentedKalmanFilter.predict", UK + "UnscentedKalmanFilter.update", UK + "UnscentedKalmanFilter.forecast"], mode="R", native_only=True, samples=150,
+            bounded="BOUNDED stand-in, not a proof: 150 (quick) / 1500 (thorough) random linear-Gaussian systems per run with state dimension 1..8, 0..4 stacked observations of dimension 1..3, "
+                    "alpha in [0.3, 1], both resampling modes, three consecutive predict/update steps on ONE filter object (different stacks per step); the proofs above stop at dimension 2 and two stacked scalars",
+            note="a numpy Kalman filter run next to the real UnscentedKalmanFilter over a three-step sequence: predicted and posterior mean/covariance agree (redraw mode: the Kalman update; no-redraw mode: "
+                 "the documented variant with the propagated sigma points), covariances symmetric PSD and posterior <= prior, a step without observations returns the propagated mean, weights sum to one")
+def kalman_bounded(vc):
+    from resonaate.estimation.kalman.unscented_kalman_filter import UnscentedKalmanFilter
+    from resonaate.physics.measurements import IsAngle
+    rng = np.random.default_rng(vc.int("seed", 0, 10 ** 9))
+    N = vc.int("state_dim", 1, 8)
+    resample = vc.bool("resample")
+    alpha, beta, kappa = vc.real("alpha", 0.3, 1.0), vc.real("beta", 0, 3), vc.real("kappa", 0, 3)
+
+    def spd(n, scale=1.0):
+        A = rng.normal(size=(n, n))
+        return (A @ A.T + n * 0.3 * np.eye(n)) * scale
+    F = rng.normal(size=(N, N)) * 0.6
+    x, P, Q = rng.normal(size=N) * 10, spd(N), spd(N, 0.1)
+    dyn = _NS(propagate=lambda t0, tf, X, scheduled_events=None: F @ X)
+    f = UnscentedKalmanFilter(1, 0.0, x.copy(), P.copy(), dyn, Q.copy(), None, False, False, resample, alpha, beta, kappa)
+    f._debugChecks = lambda obs: None
+    ok = {k: True for k in ("predict", "update", "psd", "noobs")}
+    vc.ensure("B-C06-seq.weights", abs(f.mean_weight.sum() - 1) < 1e-9)
+    kx, kP = x.copy(), P.copy()
+    psd = lambda M, ref: bool(np.allclose(M, M.T, atol=1e-8 * (1 + abs(ref).max()))) and np.linalg.eigvalsh((M + M.T) / 2).min() > -1e-7 * (1 + abs(ref).max())
+    for step in range(3):
+        f.predict(60.0 * (step + 1))
+        px, FPF = F @ kx, F @ kP @ F.T
+        pP = FPF + Q
+        ok["predict"] &= bool(np.allclose(f.pred_x, px, rtol=1e-6, atol=1e-6) and np.allclose(f.pred_p, pP, rtol=1e-6, atol=1e-6))
+        n_obs = int(rng.integers(0, 5))
+        obs, Hs, Rs, ys = [], [], [], []
+        for _ in range(n_obs):
+            M = int(rng.integers(1, 4))
+            H, R, y = rng.normal(size=(M, N)), spd(M, 0.5), rng.normal(size=M) * 10
+
+            class Meas:
+                angular_values = [IsAngle.NOT_ANGLE] * M
+
+                def __init__(self, H):
+                    self.H = H
+
+                def calculateMeasurement(self, sensor_eci, state, utc, noisy=False):
+                    vals = self.H @ state
+                    return {f"c{i}": vals[i] for i in range(len(vals))}
+            obs.append(_NS(julian_date=2459000.5, sensor_eci=None, measurement=Meas(H), r_matrix=R, measurement_states=y))
+            Hs.append(H); Rs.append(R); ys.append(y)
+        f.update(obs)
+        if n_obs == 0:
+            ok["noobs"] &= bool(np.allclose(f.est_x, px, rtol=1e-6, atol=1e-6) and np.allclose(f.est_p, f.pred_p))
+            kx, kP = px, pP
+        else:
+            H = np.concatenate(Hs, axis=0)
+            Rb = np.zeros((H.shape[0], H.shape[0]))
+            o = 0
+            for R in Rs:
+                Rb[o:o + len(R), o:o + len(R)] = R
+                o += len(R)
+            y = np.concatenate(ys)
+            prior = pP if resample else FPF
+            S = H @ prior @ H.T + Rb
+            K = prior @ H.T @ np.linalg.inv(S)
+            kx = px + K @ (y - H @ px)
+            kP = pP - K @ S @ K.T
+            ok["update"] &= bool(np.allclose(f.est_x, kx, rtol=1e-5, atol=1e-5) and np.allclose(f.est_p, kP, rtol=1e-5, atol=1e-5)
+                                 and np.allclose(f.innov_cvr, S, rtol=1e-5, atol=1e-5))
+            if resample:
+                ok["psd"] &= psd(f.est_p, pP) and psd(f.pred_p - f.est_p, pP)
+        ok["psd"] &= psd(f.pred_p, pP)
+        kx, kP = np.array(f.est_x, dtype=float), np.array(f.est_p, dtype=float)  # follow the filter: compare step by step, not accumulated drift
+    for k_, v in ok.items():
+        vc.ensure(f"B-C06-seq.{k_}", bool(v))
